@@ -250,8 +250,11 @@ func (c *Collector) collect() {
 	res := newSortedHotKeys(c.capacity)
 	for keyName, counter := range curHotKeys {
 		visits := accessedKeyNames[keyName]
-		counter.ReaptIncr(visits)
-		key := HotKey{Name: keyName, Counter: counter}
+		// NOTE: The counters of published hot keys are read by the callers
+		// of HotKeys without lock, so update a copy instead of them.
+		cpy := *counter
+		cpy.ReaptIncr(visits)
+		key := HotKey{Name: keyName, Counter: &cpy}
 		res.Insert(key)
 		delete(accessedKeyNames, keyName)
 	}
@@ -274,20 +277,18 @@ func (c *Collector) evictStale() {
 	c.rwmu.Lock()
 	defer c.rwmu.Unlock()
 
-	// halve counter
+	// halve counter and remove stale
+	// NOTE: The counters of published hot keys are read by the callers
+	// of HotKeys without lock, so update a copy instead of them.
 	curTimeInMinute := nowInMinute()
-	for _, key := range c.keys {
-		counter := key.Counter
-		if curTimeInMinute > counter.LastUpdateTimeInMinute() {
-			counter.Halve()
-		}
-	}
-
-	// remove stale
 	keys := make([]HotKey, 0, len(c.keys))
 	for _, key := range c.keys {
-		if key.Counter.Value() != 0 {
-			keys = append(keys, key)
+		cpy := *key.Counter
+		if curTimeInMinute > cpy.LastUpdateTimeInMinute() {
+			cpy.Halve()
+		}
+		if cpy.Value() != 0 {
+			keys = append(keys, HotKey{Name: key.Name, Counter: &cpy})
 		}
 	}
 	c.keys = keys
